@@ -72,8 +72,13 @@ fn play(src: &str, ops: &[String]) -> serde_json::Value {
             if let Err(e) = story.remove_flow(n) { result = format!("err:{e}"); }
         } else if let Some(n) = op.strip_prefix("sf:") {
             if let Err(e) = story.switch_flow(n) { result = format!("err:{e}"); }
+        } else if let Some(n) = op.strip_prefix("ef:") {
+            let mut out = String::new();
+            match story.evaluate_function(n, None, &mut out) { Ok(v) => result = format!("ef:{:?}|{}", v.is_some(), out), Err(e) => result = format!("err:{e}") }
         } else if let Some(n) = op.strip_prefix("tg:") {
             match story.tags_for_content_at_path(n) { Ok(t) => result = format!("tags:{t:?}"), Err(e) => result = format!("err:{e}") }
+        } else if let Some(n) = op.strip_prefix("cpn:") {
+            if let Err(e) = story.choose_path_string(n, false, None) { result = format!("err:{e}"); }
         } else if let Some(n) = op.strip_prefix("cps:") {
             if let Err(e) = story.choose_path_string(n, true, None) { result = format!("err:{e}"); }
         } else if let Some(n) = op.strip_prefix("set:") {
